@@ -61,7 +61,8 @@ def gen_item_C19(rng, idx, tier):
             events.append(['lasso', slot, [rng.randrange(1000) for _ in range(rng.randint(0, 3))]])
         else:
             events.append(['slice', rng.randrange(shape[0])])
-    return {'case': case, 'ops': ops, 'events': events, 'ncb': rng.randint(0, 2)}
+    return {'case': case, 'ops': ops, 'events': events, 'ncb': rng.randint(0, 2),
+            'nanrow': rng.randrange(1000) if rng.random() < 0.35 else None}
 
 
 def eval_C19(item):
@@ -88,8 +89,17 @@ def eval_C19(item):
         warnings.simplefilter('ignore')
         v = BasicDendrogramViewer(d)
         cat = (pp_catalog if nd == 2 else ppv_catalog)(d, {'data_unit': u.Jy}, fields=['x_cen', 'y_cen'], verbose=False)
+        # a catalog row whose plotted quantity is undefined (NaN), as failed statistics leave behind: it is
+        # never inside a lasso and must not shift the rows after it
+        nan_row = None
+        if item.get('nanrow') is not None and len(cat) >= 2:
+            nan_row = item['nanrow'] % len(cat)
+            cat['x_cen'][nan_row] = np.nan
         sc = Scatter(d, v.hub, cat, 'x_cen', 'y_cen')
     row_ids = [int(x) for x in cat['_idx']]
+
+    def _same(a_, b_):
+        return a_ == b_ or (np.isnan(a_) and np.isnan(b_))
     calls = []
     for c in range(item['ncb']):
         v.hub.add_callback(lambda sid, c=c: calls.append((c, sid)))
@@ -142,7 +152,7 @@ def eval_C19(item):
                         cur_slice = v.slice
                 elif ev[0] == 'lasso':
                     _, slot, rs = ev
-                    rows = sorted(set(r % len(row_ids) for r in rs))
+                    rows = sorted(set(r % len(row_ids) for r in rs) - set([nan_row]))
                     # a lasso polygon around exactly those rows: drive the callback with a path hugging the points
                     cb = sc.callback_generator(Ev(button=slot))
                     sc.lasso = None
@@ -192,7 +202,7 @@ def eval_C19(item):
                 xd = np.asarray(sc.lines2d[slot].get_xdata(), dtype=float)
                 yd = np.asarray(sc.lines2d[slot].get_ydata(), dtype=float)
                 for x_, y_ in zip(xd, yd):
-                    hit = [r for r in range(len(row_ids)) if float(cat['x_cen'][r]) == x_ and float(cat['y_cen'][r]) == y_]
+                    hit = [r for r in range(len(row_ids)) if _same(float(cat['x_cen'][r]), x_) and _same(float(cat['y_cen'][r]), y_)]
                     rows_hl.append(hit[0] if hit else -1)
             if sorted(rows_hl) != ms['rows'] and len(set(zip(cat['x_cen'], cat['y_cen']))) == len(row_ids):
                 res['corr'].append('slot %d highlighted scatter rows: impl %r model %r' % (slot, sorted(rows_hl), ms['rows']))
@@ -241,7 +251,7 @@ def eval_C19(item):
                 got_rows = []
                 if slot in sc.lines2d and sc.lines2d[slot] is not None:
                     for x_, y_ in zip(np.asarray(sc.lines2d[slot].get_xdata(), dtype=float), np.asarray(sc.lines2d[slot].get_ydata(), dtype=float)):
-                        hit = [r_ for r_ in range(len(row_ids)) if float(cat['x_cen'][r_]) == x_ and float(cat['y_cen'][r_]) == y_]
+                        hit = [r_ for r_ in range(len(row_ids)) if _same(float(cat['x_cen'][r_]), x_) and _same(float(cat['y_cen'][r_]), y_)]
                         got_rows.append(row_ids[hit[0]] if hit else -1)
                 if sorted(got_rows) != want_ids:
                     res['pred'].append('highlighted scatter points belong to structures %r, selection (slot %d) is %r' % (sorted(got_rows), slot, want_ids))
@@ -262,7 +272,7 @@ def lasso_around(xys, rows):
     import matplotlib.path as mpath
     xys = np.asarray(xys, dtype=float)
     if len(rows) == 0:
-        far = xys.max(axis=0) + 100.0
+        far = np.nanmax(xys, axis=0) + 100.0
         return [(far[0], far[1]), (far[0] + 1, far[1]), (far[0] + 1, far[1] + 1)]
     eps = 1e-6
     if len(rows) == 1:
